@@ -196,3 +196,25 @@ def closure_yield_escape(v):
             if x.get("t") == "for" and any(i.get("t") == "call" and i["name"]["n"] in gens_ for i in x["iters"]) and not any(z.get("t") == "ret" for z in walk(x["body"])):
                 return True
     return False
+
+
+
+@predicate("closure-holding-closure-escape")
+def closure_holding_closure_escape(v):
+    """D27: inside a function F a function literal g reads a variable of F that is bound (in F) to another function literal which itself
+    captures a variable of F; when g leaves F the function value held in its captured frame still points at F's dead frame"""
+    if not _wrong_result(v):
+        return False
+    for F in _fn_nodes(v.session["items"]):
+        caps = _captures(F)
+        if len(caps) < 2:
+            continue
+        bound = {}
+        for x in walk(F["body"]):
+            if x.get("t") == "assign" and x["e"].get("t") == "fn" and any(x["e"] is g for g, _ in caps):
+                bound[x["tgt"]["n"]] = x["e"]
+        for g, cap in caps:
+            for nm in cap:
+                if nm in bound and bound[nm] is not g:
+                    return True
+    return False
